@@ -102,6 +102,8 @@ def _e2e_job(job):
         return [getattr(accdrv, job[1])(job[2])]
     if job[0] == 'irq':
         return accdrv.irq_worker(job[1])
+    if job[0] == 'slow':
+        return accdrv.slow_worker(job[1])
     return accdrv.custom_worker(job[1]) if job[0] == 'cu' else accdrv.c12_worker(job[1])
 
 
@@ -123,6 +125,10 @@ def end_to_end(rep, accs, tier, sd, wd):
         part = [i for i in rest if i % (16 if q else 32) == k]
         if part:
             jobs.append(('cu', (sd * 977 + k, part, tier, wd, fullset)))
+    # programs that wait a long time with interrupts enabled between two ROM loads (fast loads that move the clock backwards)
+    nslow = 16 if q else 48
+    for k in range(nslow):
+        jobs.append(('slow', (sd * 419 + k, [sd * nslow + k], tier, wd)))
     nb = 1 if q else 3
     for k in range(16):
         jobs.append(('b', (sd * 389 + k, nb, tier, wd)))
@@ -165,6 +171,14 @@ def end_to_end(rep, accs, tier, sd, wd):
         raise MachineryError('interrupt-enabled loaders are vacuous: %d of %d tapes load, %d block starts in the first 21 T-states of a frame, '
                              '%d in the first 32, %d runs that accepted interrupts while sampling, %d Python runs, frame positions %s'
                              % (len(irq), nirq, irq_early, irq_window, irq_ints, irq_py, sorted(irq_ds)))
+    slow = [c for c in live if c['key'].startswith('slow/')]
+    slow_back = sum(c['slow']['clock_back_over_a_frame'] for c in slow)
+    slow_fl = sum(c['slow']['fast_loads'] for c in slow)
+    slow_py = sum(1 for c in slow for u in c['runs'] if 'python=1' in u['cfg'])
+    slow_real = sum(1 for c in slow for u in c['runs'] if 'fast-load=0' in u['cfg'])
+    if len(slow) < 0.7 * nslow or slow_back < 2 * nslow or slow_py < nslow or slow_real < nslow // 4:
+        raise MachineryError('slow-consumer programs are vacuous: %d of %d tapes load, %d fast loads, %d of them moved the clock back by a frame '
+                             'or more, %d Python runs, %d fast-load=0 runs' % (len(slow), nslow, slow_fl, slow_back, slow_py, slow_real))
     # pairwise cover of the speed-up options over the suite (vacuity)
     seen = set()
     for c in live:
@@ -189,9 +203,10 @@ def end_to_end(rep, accs, tier, sd, wd):
     missing = need - seen
     if missing:
         raise MachineryError('configuration pairs never exercised: %s' % sorted(missing)[:6])
-    log('C13: %d tapes (%d custom-loader over %d loop shapes, %d bin2tap, %d with interrupts enabled: %d block starts inside the INT window), '
+    log('C13: %d tapes (%d custom-loader over %d loop shapes, %d bin2tap, %d with interrupts enabled: %d block starts inside the INT window, '
+        '%d slow consumers: %d fast loads moved the clock back), '
         '%d tap2sna runs; %d tapes not loading in any configuration'
-        % (len(live), ncustom, len(shapes), nb12, len(irq), irq_window, sum(len(c['runs']) for c in live), len(notload)))
+        % (len(live), ncustom, len(shapes), nb12, len(irq), irq_window, len(slow), slow_back, sum(len(c['runs']) for c in live), len(notload)))
     if not all(u['t'] >= 0 for c in live for u in c['runs'] if not u['err']):
         raise MachineryError('the clock could not be observed (tap2sna.get_state hook)')
     live += probes
@@ -205,6 +220,9 @@ def end_to_end(rep, accs, tier, sd, wd):
     rep.extra['interrupt_enabled_loaders'] = dict(tapes=len(irq), block_starts_in_first_21_tstates_of_a_frame_with_iff1=irq_early,
                                                   block_starts_in_int_window=irq_window, runs_with_interrupts_accepted_while_sampling=irq_ints,
                                                   python_runs=irq_py, frame_positions=sorted(irq_ds))
+    rep.extra['slow_consumers'] = dict(tapes=len(slow), fast_loads_not_at_end_of_tape=slow_fl, fast_loads_that_moved_the_clock_back_a_frame_or_more=slow_back,
+                                       python_runs=slow_py, fast_load_0_runs=slow_real,
+                                       frames_back=sorted(set(x for c in slow for x in c['slow']['clock_back_frames'])))
     c0 = live[0]
     rep.sample({'tape': c0['key'], 'gen': c0['gen'], 'start': c0['start'], 'configs': [u['cfg'] for u in c0['runs']][:8],
                 'default_run': {k: c0['runs'][0][k] for k in ('pc', 'sp', 'r', 't', 'regs')}})
@@ -217,6 +235,7 @@ def end_to_end(rep, accs, tier, sd, wd):
         slim = dict(c)
         slim['runs'] = [{k: v for k, v in x.items() if k != 'pages'} for x in (c['runs'][0], lead, u)]
         slim.pop('irq', None)
+        slim.pop('slow', None)
         rep.violation('e2e:%s:%s:%s' % (kind, cl, u['cfg']),
                       'tape %s (--start %d): configuration [%s] vs [%s]: %s differs (pc %d/%d sp %d/%d R %d/%d T %d/%d) %s'
                       % (c['key'], c['start'], u['cfg'], lead['cfg'] if cl in ('registers', 'r', 'tstates', 'ram', '7ffd') else ('the bytes on the tape' if cl == 'data-bytes' else c['runs'][0]['cfg']),
@@ -252,7 +271,8 @@ def run(tier):
                 'turbo/headerless blocks, a ROM-loaded block over the live return stack whose words give PC and the return address of the caller) x configuration matrix, '
                 'and tapes of 1-3 blocks for the same relocated loader with EI instead of DI under IM 2 (48K and 128K), every block start set to a chosen '
                 'frame position (0..40 and -40..-1 T-states around the frame boundary, via a leading pulse, the pause and first-edge) x '
-                '{python 0/1, pause, accelerator, cmio, fast-load}; distinct_nontrivial = distinct (scenario key) and (tape key, configuration)')
+                '{python 0/1, pause, accelerator, cmio, fast-load}, and slow-consumer programs (IM 1: EI, HALT x N or a busy loop of N frames, N in 1..400, before '
+                'every CALL LD-BYTES for 2-3 headerless blocks of 2..300 bytes, some frames of work after every load) x {python, accelerator, cmio, fast-load}; distinct_nontrivial = distinct (scenario key) and (tape key, configuration)')
     rep.assumptions = [
         'tap2sna does not write the clock into the snapshot; T is read from simulator.registers at the moment tap2sna takes the snapshot '
         '(wrapper around tap2sna.get_state), everything else comes from the snapshot file via the independent decoder',
@@ -264,6 +284,8 @@ def run(tier):
         'interrupt-enabled loaders run under IM 2 with a 10-byte routine (the ROM IM 1 routine takes ~1000 T-states and the relocated '
         'LD-BYTES then never sees 256 clean leader pairs, i.e. the tape does not load); frame positions of block starts are taken from '
         'the real parser (tap2sna._get_tape_blocks + tape.get_edges) in a dry run',
+        'slow-consumer programs are run with pause=0 only when no wait exceeds one frame (with the deck running a late consumer gets a '
+        'different block: not a tape that loads); fast-load=0 only where every leader is long enough for the ROM routine',
         'obligations start every sampling loop at its first byte with the registers the loop itself assumes (EAR mask register, C=0xFE for '
         'IN r,(C)); pulses shorter than one loop period between two samples are outside the model',
     ]
